@@ -445,6 +445,20 @@ func harnesses(r *fw.Run) []fw.HarnessSpec {
 			}
 			h, err := t.Hash()
 			if rerr != nil {
+				// a cell that cannot be hashed stays unhashable: asked again (same Hasher, every accessor) the answer is
+				// an error again, never an empty or stale hash
+				hs := tb.NewHasher()
+				for round := 0; round < 3; round++ {
+					if _, e := hs.Hash(t); e == nil {
+						c.Fail("unhashable-cell-hashed", "Hasher.Hash of a chain of %d cells succeeds at attempt %d", d, round+1)
+					}
+					if str, e := hs.HashString(t); e == nil {
+						c.Fail("unhashable-cell-hashed", "Hasher.HashString of a chain of %d cells returns %q without error at attempt %d", d, str, round+1)
+					}
+					if str, e := t.HashString(); e == nil {
+						c.Fail("unhashable-cell-hashed", "Cell.HashString of a chain of %d cells returns %q without error at attempt %d", d, str, round+1)
+					}
+				}
 				if err == nil {
 					c.Fail("depth-limit", "chain of %d cells hashed without error (depth limit 1024)", d)
 				} else if !errors.Is(err, tb.ErrDepthIsTooBig) {
@@ -455,6 +469,69 @@ func harnesses(r *fw.Run) []fw.HarnessSpec {
 			want := rc.ReprHash()
 			if err != nil || !bytes.Equal(h, want[:]) {
 				c.Fail("depth-hash", "chain of %d cells: Hash=%x,%v want %x", d, h, err, want)
+			}
+		})
+	})
+
+	// the depth limit also applies when the depth comes out of a pruned branch: stored depths at the boundaries of
+	// the limit and of the 16-bit field
+	add("depth-limit-with-pruned-child", 0, func(c *enum.Ctx) {
+		sd := []int{0, 1, 1022, 1023, 1024, 1025, 0x7FFF, 0x8000, 0xFFFE, 0xFFFF}[c.ChooseFree(10)]
+		wrap := c.ChooseFree(2) // 0: parent over the pruned branch, 1: a Merkle proof over that parent
+		c.Case([]byte(fmt.Sprintf("pruned-depth/%d/%d", sd, wrap)), true)
+		c.Label("pruned branch storing depth %d, wrap %d", sd, wrap)
+		c.Try("panic:pruned-depth", func() {
+			data := []byte{1, 1}
+			data = append(data, bits.Pattern(seed, 256).Bytes()...)
+			data = append(data, byte(sd>>8), byte(sd))
+			pr, err := cell.New(data, len(data)*8, nil, true)
+			if err != nil {
+				c.Skip()
+				return
+			}
+			parent, perr := cell.New([]byte{0x42}, 8, []*cell.Cell{pr}, false)
+			top := parent
+			if perr == nil && wrap == 1 {
+				top, perr = cell.NewMerkleProof(parent)
+			}
+			// tongo's view: the same cells, parsed from bytes written by the reference serialiser where possible,
+			// otherwise assembled through the in-memory API
+			var t *tb.Cell
+			if perr == nil {
+				raw, err := rboc.Serialize([]*cell.Cell{top}, rboc.Options{})
+				if err != nil {
+					c.Skip()
+					return
+				}
+				roots, err := tb.DeserializeBoc(raw)
+				if err != nil {
+					c.Fail("inbound-rejected", "conforming bag with a pruned branch of stored depth %d rejected: %v", sd, err)
+					return
+				}
+				t = roots[0]
+				h, err := t.Hash()
+				want := top.ReprHash()
+				if err != nil || !bytes.Equal(h, want[:]) {
+					c.Fail("depth-hash-pruned", "stored depth %d: Hash=%x,%v want %x", sd, h, err, want)
+				}
+				return
+			}
+			// the reference refuses the parent (depth above the limit): tongo must refuse to hash it as well
+			prBoc, err := rboc.Serialize([]*cell.Cell{pr}, rboc.Options{})
+			if err != nil {
+				c.Skip()
+				return
+			}
+			roots, err := tb.DeserializeBoc(prBoc)
+			if err != nil {
+				c.Skip()
+				return
+			}
+			t = tb.NewCell()
+			_ = t.WriteUint(0x42, 8)
+			_ = t.AddRef(roots[0])
+			if h, err := t.Hash(); err == nil {
+				c.Fail("depth-limit-pruned", "a cell above a pruned branch of stored depth %d hashed without error (%x); the limit is 1024", sd, h)
 			}
 		})
 	})
